@@ -512,6 +512,7 @@ def accessor2 (name : String) (s a : Val) : Out Val :=
   | "!!" => index s a
   | "index" => index s a
   | "!?" => safeIndex s a
+  | "index?" => safeIndex s a
   | "!%" => objCyclicIndex s a
   | "take" => slice s none (some a)
   | "drop" => slice s (some a) none
